@@ -35,7 +35,6 @@ def avoidBranch (shapes : List Shape) (b : ABox) (cb : CB) (outer : Bool) : Stri
   let y0 := if outer then b.py else b.py + b.mt
   let w := if outer then b.marginWidth else b.bw
   let h := if outer then b.marginHeight else b.bh
-  if b.bh = 0 && b.isFloated then "early-return" else
   let l0 := if outer then cb.cx else cb.cx + b.ml
   let r0 := if outer then cb.cx + cb.w else cb.cx + cb.w - b.mr
   match avoidLoopTrace (shapes.length + 1) shapes w h l0 r0 y0 0 with
